@@ -153,8 +153,9 @@ def run(ctx):
     import c06_model
     import ob_outbytes
     import file_corr
-    ctx.prove(["TLX.Props.C06"] + ob_outbytes.MODULES)
-    ctx.require_theorems(c06_model.THEOREMS + ob_outbytes.THEOREMS)
+    import export_thms
+    ctx.prove(["TLX.Props.C06"] + ob_outbytes.MODULES + export_thms.MODULES)
+    ctx.require_theorems(c06_model.THEOREMS + ob_outbytes.THEOREMS + export_thms.THEOREMS)
     c06_model.run_model(ctx)
     ob_outbytes.correspond(ctx)       # ties TLX.OutBytes (scapy serialisation, dpkt pcapng writer) to the real libraries
     file_corr.correspond(ctx)         # whole program, capture file → output file, byte for byte
